@@ -105,6 +105,9 @@ type Schema struct {
 }
 
 func NewSchemaRef(schema *openapi3.SchemaRef, components Sourcer[Schema], opts SchemaOptions) (Ref[Schema], error) {
+	if schema == nil {
+		return nil, fmt.Errorf("schema is not set")
+	}
 	if schema.Ref != "" {
 		v, ok := components.Get(schema.Ref)
 		if !ok {
@@ -120,6 +123,9 @@ type SchemaOptions struct {
 }
 
 func NewSchema(schema *openapi3.Schema, components Sourcer[Schema], opts SchemaOptions) (*Schema, error) {
+	if schema == nil {
+		return nil, fmt.Errorf("schema is empty (null)")
+	}
 	out := Schema{
 		Type:        schema.Type,
 		Format:      schema.Format,
